@@ -112,6 +112,10 @@ def compare_counts(ctx, prop, fam, sc, exp, obs, emb, extra_key=""):
                     ctx.violation(f"{prop}|crosscorrelate|{fam}|sum_weights2_differs" + extra_key,
                                   dict(family=fam, bin=b, patch=i, expected=exp["sumw2"][i], observed=obs["sw2"][b][i]))
                     return False
+                if "auto_sw1" in obs and obs["auto_sw1"][b][i] != exp["binw"][b][i]:
+                    ctx.violation(f"{prop}|autocorrelate|{fam}|sum_weights1_differs" + extra_key,
+                                  dict(family=fam, bin=b, patch=i, expected=exp["binw"][b][i], observed=obs["auto_sw1"][b][i], ref=[dict(o_) for o_ in exp["ref"]]))
+                    return False
                 for which in ("sw1_rd", "sw1_rr"):      # the reference randoms are binned by the same rule as the reference sample
                     if which in obs and obs[which][b][i] != exp["binw"][b][i]:
                         ctx.violation(f"{prop}|crosscorrelate|{fam}|sum_weights1_of_reference_randoms_differs" + extra_key,
